@@ -30,6 +30,7 @@ func init() {
 			"C35.R6 MPT: finalizeKeywords reaches the XMP clean-up on every successful path when the catalog has XMP metadata",
 			"C35.R7 like-with-like: in-memory Info dictionary keys are accessed as they are, not name-encoded",
 			"C35.R8 MPT: a name-tree node's own dictionary is deep-deleted only after its Kids entry was taken out",
+			"C35.R9 like-with-like: the bytes of a hex string never reach Unescape (names are written as hex strings of raw bytes)",
 			"C35.R4 shape: the name-tree writer does not deepen a path by splitting a leaf in place (the reader refuses deep trees) — violated on the tree, known finding",
 		},
 		Assumptions: []string{"the parser decodes names (model.parseName calls types.DecodeName); listing reads the fields validation fills"},
@@ -54,6 +55,8 @@ func runC35(c *Ctx) {
 	checkInfoKeysNotEncodedForAccess(c)
 	r.MinInst["C35.R8"] = 1
 	checkNameTreeNodeDeletion(c)
+	r.MinInst["C35.R9"] = 3
+	checkHexBytesNotUnescaped(c, "C35.R9")
 	files := []string{"pkg/pdfcpu/validate/info.go", "pkg/pdfcpu/property.go", "pkg/pdfcpu/keyword.go"}
 	inFiles := func(fn *ssa.Function) bool {
 		f := p.File(fn.Pos())
@@ -593,5 +596,62 @@ func checkNameTreeNodeDeletion(c *Ctx) {
 	}
 	if n == 0 {
 		r.Bad("C35.R8", "pkg/pdfcpu/model/nameTree.go", "anchor", "", "UNRESOLVED-ANCHOR: no deep delete of a node's own dictionary found")
+	}
+}
+
+// R9 (like with like): a hex string <…> carries its bytes literally — there is no escape mechanism (ISO 32000 7.3.4.3) —
+// and pdfcpu writes name-tree keys and bookmark destinations as hex strings of the raw bytes. Nothing that derives from
+// HexLiteral.Bytes() is handed to types.Unescape (module-wide). Violated on the pinned tree by HexLiteralToString
+// (a backslash in an attachment name was read back as an escape), repaired.
+func checkHexBytesNotUnescaped(c *Ctx, rule string) {
+	p, r := c.P, c.R
+	n, readers := 0, 0
+	for _, fn := range p.Funcs {
+		if !isSubject(fn) {
+			continue
+		}
+		var fromHex []ssa.Value
+		eachInstr(fn, func(_ *ssa.BasicBlock, _ int, i ssa.Instruction) {
+			if call, ok := i.(*ssa.Call); ok {
+				if _, ref := callRef(call); strings.HasSuffix(ref, "types.HexLiteral.Bytes") {
+					if call.Referrers() != nil {
+						for _, rf := range *call.Referrers() {
+							if ex, ok := rf.(*ssa.Extract); ok && ex.Index == 0 {
+								fromHex = append(fromHex, ex)
+							}
+						}
+					}
+				}
+			}
+		})
+		if len(fromHex) == 0 {
+			continue
+		}
+		readers++
+		t := taintFrom(c, fromHex)
+		bad := token.NoPos
+		eachInstr(fn, func(_ *ssa.BasicBlock, _ int, i ssa.Instruction) {
+			call, ok := i.(*ssa.Call)
+			if !ok {
+				return
+			}
+			if _, ref := callRef(call); !strings.HasSuffix(ref, "types.Unescape") {
+				return
+			}
+			for _, a := range call.Call.Args {
+				if t[a] {
+					bad = call.Pos()
+				}
+			}
+		})
+		n++
+		if bad != token.NoPos {
+			r.Bad(rule, FuncID(fn), "hex string bytes are literal", p.Pos(bad), "the decoded bytes of a hex string are run through Unescape: a backslash in them (pdfcpu writes name-tree keys and destinations as hex strings of the raw bytes) is taken for an escape, so the name read back is not the name that was written")
+		} else {
+			r.OK(rule, FuncID(fn), "hex string bytes are literal", p.Pos(fn.Pos()), "the bytes of the hex string never reach Unescape", true)
+		}
+	}
+	if readers == 0 {
+		r.Bad(rule, "pkg/pdfcpu/types", "anchor", "", "UNRESOLVED-ANCHOR: no caller of HexLiteral.Bytes found")
 	}
 }
